@@ -88,3 +88,11 @@ zi = pl.Series("z", [None, None], dtype=pl.Int64)
 zf = pl.Series("w", [None, None], dtype=pl.Float64)
 lf = df.lazy().with_columns((pl.lit(zi) + pl.lit(zi)).alias("a"), (pl.lit(zf) + pl.lit(zf)).alias("b"))
 print("D23: optimized:", dict(lf.collect().schema), "unoptimized:", dict(lf.collect(optimizations=pl.QueryOptFlags.none()).schema))
+
+# D16e inside group_by().agg(): the length-1 comparison result makes the aggregation panic when the group has more than 8 rows
+try:
+    c = pl.lit("é") == pl.col("cg")
+    r = pl.DataFrame({"k": list(range(10))}).lazy().with_columns(cg=pl.lit("c")).group_by("cg").agg(w=pl.when(c.count() == 0).then(None).otherwise(c.any())).collect()
+    print("D16e (agg): no panic:", r.rows())
+except BaseException as e:  # noqa: BLE001  (pyo3 PanicException)
+    print("D16e (agg):", type(e).__name__, str(e)[:80])
